@@ -8,11 +8,13 @@ import (
 
 // AsyncEventBroker maintains a list of listeners interested in a specific type
 // of event.  Events are sent in parallel to all listeners, and no result is
-// returned.
+// returned.  A listener is not called for the next event until its previous
+// call has completed.
 type AsyncEventBroker[E any] struct {
 	sync.RWMutex
-	listenerNames []string  // Ordered listener names.
-	listenerFuncs []func(E) // Ordered listener functions.
+	listenerNames []string         // Ordered listener names.
+	listenerFuncs []func(E)        // Ordered listener functions.
+	dispatcher    *asyncDispatcher // Orders the calls of each listener; shared within a Host.
 }
 
 // Emit sends the provided event to each registered listener in parallel.
@@ -20,9 +22,10 @@ func (eb *AsyncEventBroker[E]) Emit(event *E) {
 	eb.RLock()
 	defer eb.RUnlock()
 
-	for _, l := range eb.listenerFuncs {
+	for i, l := range eb.listenerFuncs {
 		// Events are copied to minimize the risk of mutation.
-		go l(*event)
+		l, ev := l, *event
+		eb.dispatcher.enqueue(eb.listenerNames[i], func() { l(ev) })
 	}
 }
 
@@ -33,6 +36,10 @@ func (eb *AsyncEventBroker[E]) AddListener(name string, listener func(E)) {
 	eb.Lock()
 	defer eb.Unlock()
 
+	if eb.dispatcher == nil {
+		// Broker used outside of a Host.
+		eb.dispatcher = newAsyncDispatcher()
+	}
 	eb.lockedRemoveListener(name)
 	eb.listenerNames = append(eb.listenerNames, name)
 	eb.listenerFuncs = append(eb.listenerFuncs, listener)
